@@ -3,6 +3,8 @@ package alpha
 import (
 	"strings"
 	"testing"
+	"unicode"
+	"unicode/utf8"
 )
 
 // The arithmetic mapping must coincide with Go's per-rune mapping on exactly
@@ -19,6 +21,40 @@ func TestAlphabetCaseSafe(t *testing.T) {
 		}
 		if Lower(Upper(r)) != Lower(r) || Upper(Lower(r)) != Upper(r) {
 			t.Errorf("%U: mapping not an involution pair", r)
+		}
+	}
+}
+
+// Every rune of the alphabet is a Unicode scalar value that survives the trip
+// through a Go string (so cases replay from JSON), and the hostile class is
+// caseless under every mapping Go knows (upper, lower, title, simple folding).
+func TestAlphabetValidScalars(t *testing.T) {
+	for _, r := range AllRunes() {
+		if !utf8.ValidRune(r) || (r >= 0xD800 && r <= 0xDFFF) {
+			t.Errorf("%U is not a scalar value", r)
+		}
+		if back := []rune(string(r)); len(back) != 1 || back[0] != r {
+			t.Errorf("%U does not survive string conversion: %U", r, back)
+		}
+	}
+	seen := map[rune]bool{}
+	for _, r := range hostile {
+		if seen[r] {
+			t.Errorf("%U listed twice", r)
+		}
+		seen[r] = true
+		if Upper(r) != r || Lower(r) != r {
+			t.Errorf("%U: reference mapping is not the identity", r)
+		}
+		if unicode.ToUpper(r) != r || unicode.ToLower(r) != r || unicode.ToTitle(r) != r || unicode.SimpleFold(r) != r {
+			t.Errorf("%U is not caseless", r)
+		}
+		s := "a" + string(r) + "Z" + string(r)
+		if got, want := strings.ToUpper(s), "A"+string(r)+"Z"+string(r); got != want {
+			t.Errorf("upper(%q) = %q", s, got)
+		}
+		if got, want := strings.ToLower(s), "a"+string(r)+"z"+string(r); got != want {
+			t.Errorf("lower(%q) = %q", s, got)
 		}
 	}
 }
